@@ -69,17 +69,18 @@ static std::string tstr_stream(std::istream& is, bool use) {
   return accept([&] { return cmp_str_tuple::deserialize(is); }, tuple_readout<cmp_str_tuple>, tstr_use, use);
 }
 
-enum UK { U_EMPTY, U_SINGLE, U_EXACT, U_EXACT_UNORD, U_EST };
+enum UK { U_EMPTY, U_SINGLE, U_EXACT, U_EXACT_UNORD, U_EST, U_BIG };   // BIG: lg_k 20..24, a few entries
 static uint64_t tuple_n(Rng& r, int kind, uint64_t k) {
   switch (kind) {
     case U_EMPTY: return 0;
     case U_SINGLE: return 1;
+    case U_BIG: return 3 + r.below(18);
     case U_EXACT: case U_EXACT_UNORD: return 2 + r.below(k - 2);
     default: return 2 * k + r.below(3 * k);
   }
 }
 static Bytes tdbl_image(Rng& r, bool T, int kind) {
-  const uint8_t lg_k = static_cast<uint8_t>(r.range(5, T ? 7 : 6));
+  const uint8_t lg_k = static_cast<uint8_t>(kind == U_BIG ? r.range(20, 24) : r.range(5, T ? 7 : 6));
   auto s = upd_dbl_tuple::builder().set_lg_k(lg_k).build();
   const uint64_t n = tuple_n(r, kind, 1ULL << lg_k), base = r.next();
   for (uint64_t i = 0; i < n; ++i) s.update(static_cast<uint64_t>(base + i * UINT64_C(0x9e3779b97f4a7c15)), static_cast<double>(i % 7) + 0.5);
@@ -87,7 +88,7 @@ static Bytes tdbl_image(Rng& r, bool T, int kind) {
   return Bytes(v.begin(), v.end());
 }
 static Bytes tstr_image(Rng& r, bool T, int kind) {
-  const uint8_t lg_k = static_cast<uint8_t>(r.range(5, T ? 6 : 5));
+  const uint8_t lg_k = static_cast<uint8_t>(kind == U_BIG ? r.range(20, 24) : r.range(5, T ? 6 : 5));
   auto s = upd_str_tuple::builder().set_lg_k(lg_k).build();
   const uint64_t n = tuple_n(r, kind, 1ULL << lg_k), base = r.next();
   for (uint64_t i = 0; i < n; ++i) s.update(static_cast<uint64_t>(base + i * UINT64_C(0x9e3779b97f4a7c15)), std::string(static_cast<size_t>(i % 5), static_cast<char>('a' + i % 26)) + long_pad(i));
@@ -118,7 +119,7 @@ static std::string aod_stream(std::istream& is, bool use) {
   return accept([&] { return compact_array_of_doubles_sketch::deserialize(is); }, aod_readout, aod_use, use);
 }
 static Bytes aod_image(Rng& r, bool T, int kind) {
-  const uint8_t lg_k = static_cast<uint8_t>(r.range(5, T ? 6 : 5));
+  const uint8_t lg_k = static_cast<uint8_t>(kind == U_BIG ? r.range(20, 24) : r.range(5, T ? 6 : 5));
   const uint8_t nv = static_cast<uint8_t>(r.range(1, 3));
   auto s = update_array_of_doubles_sketch::builder(default_array_of_doubles_update_policy(nv)).set_lg_k(lg_k).build();
   const uint64_t n = tuple_n(r, kind, 1ULL << lg_k), base = r.next();
@@ -131,7 +132,7 @@ static Bytes aod_image(Rng& r, bool T, int kind) {
 // ------------------------------------------------------------------ registration
 std::vector<Target> targets() {
   std::vector<Target> t;
-  struct { const char* name; int k; } uks[] = {{"empty", U_EMPTY}, {"single", U_SINGLE}, {"exact", U_EXACT}, {"exact_unordered", U_EXACT_UNORD}, {"estimation", U_EST}};
+  struct { const char* name; int k; } uks[] = {{"empty", U_EMPTY}, {"single", U_SINGLE}, {"exact", U_EXACT}, {"exact_unordered", U_EXACT_UNORD}, {"estimation", U_EST}, {"bigcfg_few", U_BIG}};
   for (auto& k : uks) {
     const int kk = k.k;
     BuildFn b1 = [kk](Rng& r, bool T) { return tdbl_image(r, T, kk); };
